@@ -31,6 +31,7 @@ type Gen struct {
 	// then share one Arrow schema signature
 	Uniform int
 	kind    int
+	seen    []seenAttr // attributes generated so far in this batch (for equal / near-twin values under the same key)
 }
 
 // some returns a count in [0,n), at least 1 in uniform mode.
@@ -169,6 +170,70 @@ func (g *Gen) val(v pcommon.Value, depth int) {
 	}
 }
 
+type seenAttr struct {
+	key string
+	val pcommon.Value
+}
+
+// nearTwin changes v into a value that differs from it only by an "empty-ish" leaf: empty bytes <-> unset,
+// "" <-> unset, inside lists and maps; an empty list gains an unset element.  Scalars other than these stay as they are.
+func nearTwin(r *rand.Rand, v pcommon.Value, depth int) {
+	flip := func(x pcommon.Value) bool {
+		switch x.Type() {
+		case pcommon.ValueTypeEmpty:
+			if r.Intn(2) == 0 {
+				x.SetEmptyBytes()
+			} else {
+				x.SetStr("")
+			}
+			return true
+		case pcommon.ValueTypeBytes:
+			if x.Bytes().Len() == 0 {
+				pcommon.NewValueEmpty().CopyTo(x)
+				return true
+			}
+		case pcommon.ValueTypeStr:
+			if x.Str() == "" {
+				pcommon.NewValueEmpty().CopyTo(x)
+				return true
+			}
+		}
+		return false
+	}
+	switch v.Type() {
+	case pcommon.ValueTypeSlice:
+		s := v.Slice()
+		if s.Len() == 0 {
+			s.AppendEmpty()
+			return
+		}
+		for i := 0; i < s.Len(); i++ {
+			if flip(s.At(i)) {
+				return
+			}
+		}
+		if depth < 3 {
+			nearTwin(r, s.At(r.Intn(s.Len())), depth+1)
+		}
+	case pcommon.ValueTypeMap:
+		done := false
+		v.Map().Range(func(_ string, x pcommon.Value) bool {
+			if flip(x) {
+				done = true
+				return false
+			}
+			return true
+		})
+		if !done && v.Map().Len() == 0 {
+			v.Map().PutEmpty("e")
+		}
+	default:
+		if depth > 0 {
+			flip(v)
+		}
+	}
+}
+
 // deep builds a value nested `d` levels (alternating lists and maps).
 func deep(v pcommon.Value, d int) {
 	for i := 0; i < d; i++ {
@@ -198,7 +263,26 @@ func (g *Gen) attrs(m pcommon.Map) {
 		n = 0
 	}
 	for i := n; i > 0; i-- {
-		g.val(m.PutEmpty(pick(g.R, keys)), 0)
+		if len(g.seen) > 0 && g.R.Intn(4) == 0 {
+			// the same key as an earlier attribute of this batch (another parent, possibly another table) with the same
+			// value or a near twin of it: values that are equal, or differ only where the encoding normalises
+			// (an empty byte string / empty string / unset value nested in a list or map)
+			e := g.seen[g.R.Intn(len(g.seen))]
+			v := m.PutEmpty(e.key)
+			e.val.CopyTo(v)
+			if g.R.Intn(2) == 0 {
+				nearTwin(g.R, v, 0)
+			}
+			continue
+		}
+		k := pick(g.R, keys)
+		v := m.PutEmpty(k)
+		g.val(v, 0)
+		if len(g.seen) < 24 {
+			c := pcommon.NewValueEmpty()
+			v.CopyTo(c)
+			g.seen = append(g.seen, seenAttr{key: k, val: c})
+		}
 	}
 	if g.R.Intn(60) == 0 {
 		d := 15
